@@ -196,7 +196,7 @@ class NpProxy:
 
     @staticmethod
     def isclose(a, b, rtol=1e-05, atol=1e-08, equal_nan=False):
-        if not (has_sym(a) or has_sym(b)):
+        if not (has_sym(a) or has_sym(b) or has_sym(rtol) or has_sym(atol)):
             return numpy.isclose(a, b, rtol=rtol, atol=atol, equal_nan=equal_nan)
         import z3
 
@@ -208,19 +208,22 @@ class NpProxy:
             x, y = Sym.lift(aa[idx]), Sym.lift(bb[idx])
             if x is None or y is None:
                 raise Unsupported("isclose of non-numeric content")
-            if x.is_const() and y.is_const():
-                out[idx] = bool(abs(x.v - y.v) <= frac(atol) + frac(rtol) * abs(y.v))
+            at, rt = Sym.lift(atol), Sym.lift(rtol)
+            if at is None or rt is None:
+                raise Unsupported("isclose with non-numeric tolerances")
+            if x.is_const() and y.is_const() and at.is_const() and rt.is_const():
+                out[idx] = bool(abs(x.v - y.v) <= at.v + rt.v * abs(y.v))
                 continue
             d = x.z() - y.z()
             ay = z3.If(y.z() >= 0, y.z(), -y.z())
-            lim = vz(frac(atol)) + vz(frac(rtol)) * ay
+            lim = at.z() + rt.z() * ay
             c = z3.simplify(z3.And(d <= lim, -d <= lim))
             out[idx] = True if z3.is_true(c) else (False if z3.is_false(c) else SymBool(c))
         return out
 
     @staticmethod
     def allclose(a, b, rtol=1e-05, atol=1e-08, equal_nan=False):
-        if not (has_sym(a) or has_sym(b)):
+        if not (has_sym(a) or has_sym(b) or has_sym(rtol) or has_sym(atol)):
             return numpy.allclose(a, b, rtol=rtol, atol=atol, equal_nan=equal_nan)
         r = NpProxy.isclose(a, b, rtol=rtol, atol=atol, equal_nan=equal_nan)
         return all(bool(x) for x in r.flat)
